@@ -103,6 +103,30 @@ fn gen_cuts(rng: &mut Rng, n: usize, st: Option<&mut RunStats>) -> Vec<usize> {
     cuts
 }
 
+/// A hash value no random item reaches: all zero / all one words, single bits, 62..64 leading zeros.
+fn extreme_word(rng: &mut Rng) -> u64 {
+    match rng.below(8) {
+        0 => 0,
+        1 => 1,
+        2 => u64::MAX,
+        3 => 1u64 << rng.below(64),
+        4 => (1u64 << rng.below(64)).wrapping_sub(1),
+        5 => rng.below(8),
+        6 => u64::MAX << rng.below(64),
+        _ => rng.next_u64(),
+    }
+}
+
+/// 16 bytes whose Murmur digest under `seed` is an extreme value (one time in four), else random data.
+fn gen_item_bytes(rng: &mut Rng, seed: u64, max_len: usize) -> Vec<u8> {
+    if rng.chance(1, 4) {
+        let (h1, h2) = (extreme_word(rng), extreme_word(rng));
+        refhash::murmur_preimage16(seed, h1, h2).to_vec()
+    } else {
+        gen_data(rng, max_len)
+    }
+}
+
 fn seeds(rng: &mut Rng) -> u64 {
     match rng.below(6) {
         0 => 0,
@@ -181,24 +205,27 @@ impl Scenario for C16 {
                 }
                 10 => Act::SeedHash { seed: seeds(rng) },
                 11..=12 => {
-                    let d = gen_data(rng, 80);
+                    let d = gen_item_bytes(rng, 9001, 80);
                     let cuts = gen_cuts(rng, d.len(), None);
                     Act::Hll { data: hex(&d), cuts }
                 }
                 13 => {
-                    let d = gen_data(rng, 80);
+                    let seed = seeds(rng);
+                    let d = gen_item_bytes(rng, seed, 80);
                     let cuts = gen_cuts(rng, d.len(), None);
-                    Act::Theta { seed: seeds(rng), data: hex(&d), cuts }
+                    Act::Theta { seed, data: hex(&d), cuts }
                 }
                 14 => {
-                    let d = gen_data(rng, 80);
+                    let seed = seeds(rng);
+                    let d = gen_item_bytes(rng, seed, 80);
                     let cuts = gen_cuts(rng, d.len(), None);
-                    Act::Cpc { seed: seeds(rng), lg_k: rng.range(4, 12) as u8, data: hex(&d), cuts }
+                    Act::Cpc { seed, lg_k: rng.range(4, 12) as u8, data: hex(&d), cuts }
                 }
                 15 => {
-                    let d = gen_data(rng, 80);
+                    let seed = seeds(rng);
+                    let d = gen_item_bytes(rng, seed, 80);
                     let cuts = gen_cuts(rng, d.len(), None);
-                    Act::Cm { seed: seeds(rng), hashes: rng.range(1, 8) as u8, buckets: rng.range(3, 200) as u32, data: hex(&d), cuts }
+                    Act::Cm { seed, hashes: rng.range(1, 8) as u8, buckets: rng.range(3, 200) as u32, data: hex(&d), cuts }
                 }
                 16 => {
                     let d = gen_data(rng, 80);
